@@ -63,6 +63,15 @@ type corpusScenario struct {
 	meta      bool
 }
 
+// c03Payload: a negative size asks for the message with an unknown-field tail
+// whose encoding has exactly -sz bytes (see TailMark).
+func c03Payload(sz int, fill byte) []byte {
+	if sz < 0 {
+		return TailPayload(-sz)
+	}
+	return Payload(sz, fill)
+}
+
 func captureCorpus(thorough bool) []wireBody {
 	var out []wireBody
 	scenarios := []corpusScenario{
@@ -86,6 +95,16 @@ func captureCorpus(thorough bool) []wireBody {
 		{"kilobyte", KServer, CompNone, []int{3}, []int{1500, 3}, false, false},
 		{"client-kilobyte", KClient, CompNone, []int{1500, 3}, []int{3}, false, false},
 	}
+	// a message of exactly 1 MiB whose every even-length prefix is a valid message, second of its stream
+	scenarios = append(scenarios,
+		corpusScenario{"mebibyte", KServer, CompNone, []int{3}, []int{3, -1 << 20}, false, false},
+		corpusScenario{"client-mebibyte", KClient, CompNone, []int{3, -1 << 20}, []int{3}, false, false},
+	)
+	// one message above the 8 MiB buffer-recycling cap, followed by another envelope
+	scenarios = append(scenarios,
+		corpusScenario{"huge", KServer, CompNone, []int{3}, []int{8*1024*1024 + 9, 3}, false, false},
+		corpusScenario{"client-huge", KClient, CompNone, []int{8*1024*1024 + 9, 3}, []int{3}, false, false},
+	)
 	if thorough {
 		scenarios = append(scenarios,
 			corpusScenario{"large", KServer, CompNone, []int{3}, []int{70000, 3}, false, false},
@@ -113,7 +132,7 @@ func captureCorpus(thorough bool) []wireBody {
 						s.ResponseTrailer().Set("X-Trail", "tv")
 					}
 					for i, sz := range sc.respSizes {
-						if err := s.Send(&BV{Value: Payload(sz, byte(0x41+i))}); err != nil {
+						if err := s.Send(MkMsg(c03Payload(sz, byte(0x41+i)))); err != nil {
 							return err
 						}
 					}
@@ -130,7 +149,7 @@ func captureCorpus(thorough bool) []wireBody {
 				cl := NewClient(tr, cfg, connect.WithCompressMinBytes(8))
 				reqs := make([][]byte, len(sc.reqSizes))
 				for i, sz := range sc.reqSizes {
-					reqs[i] = Payload(sz, byte(0x61+i))
+					reqs[i] = c03Payload(sz, byte(0x61+i))
 				}
 				_ = RunCall(context.Background(), cl, sc.kind, reqs, http.Header{"X-Req": {"qv"}})
 				ex := tr.Last()
@@ -286,7 +305,7 @@ func deliverLimited(w wireBody, sc memhttp.Script, dropTrailers bool, limit int)
 				}
 				break
 			}
-			obs.Msgs = append(obs.Msgs, cloneBytes(m.Value))
+			obs.Msgs = append(obs.Msgs, MsgBytes(m))
 		}
 		return s.Send(&BV{Value: []byte{1}})
 	}, limitOption(limit)...)
@@ -436,6 +455,10 @@ func c03Scripts(w wireBody, thorough bool, f func(memhttp.Script) bool) {
 		}
 		sort.Ints(positions)
 	}
+	if n > 1<<20 {
+		// bodies of several MiB: single cuts only (around every envelope boundary) and coarse strides
+		maxCuts = 1
+	}
 	var rec func(start int, cuts []int) bool
 	rec = func(start int, cuts []int) bool {
 		if len(cuts) > 0 {
@@ -466,6 +489,9 @@ func c03Scripts(w wireBody, thorough bool, f func(memhttp.Script) bool) {
 	strides := []int{1, 2, 3, 4, 5, 6, 7, 8}
 	if n > 200 {
 		strides = []int{1, 7, 100, 300, 511, 512, 513, 600, 1000, 1024, 4096, 16384, 65536}
+	}
+	if n > 1<<20 {
+		strides = []int{4096, 65536, 1 << 20, 3 << 20}
 	}
 	for _, s := range strides {
 		if !emit(nil, s) {
